@@ -28,7 +28,7 @@ REQUIRED = ["op.add", "op.assign-all", "op.assign-ids", "op.assign-times", "op.a
             "op.remove-list", "op.re-add", "route.xml", "route.protobuf", "shape.Rectangle", "shape.Circle",
             "shape.Polygon", "shape.ShapeGroup", "obstacle.static", "obstacle.dynamic-trajectory", "obstacle.dynamic-none",
             "straddling(centre-lanelets<shape-lanelets)", "inv-g-checked", "inv-r-checked", "op.move",
-            "centre-on-a-lanelet-the-occupancy-does-not-touch", "scripted-history"]
+            "centre-on-a-lanelet-the-occupancy-does-not-touch", "scripted-history", "op.shorten-prediction"]
 EXHAUSTIVE = {"quick": "all histories of length <= 2 over the 10-operation alphabet on a fixed 2-obstacle universe",
               "thorough": "all histories of length <= 3 over the 10-operation alphabet on a fixed 2-obstacle universe"}
 ASSUMPTIONS = ["set-based predictions are outside the quantifier", "obstacles are added after the network exists",
@@ -286,6 +286,21 @@ def run(ctx):
                     pool[arg].translate_rotate(np.array([lattice.q(rng, -6, 6), lattice.q(rng, -6, 6)]), 0.0)
                     assigned = {a for a in assigned if a[0] != arg}
                     center_only.add(arg)
+                elif op == "shorten-prediction":
+                    # the prediction is replaced (public update_prediction) by one with a shorter horizon; the next
+                    # assignment replaces what was recorded and registered for the obstacle, also beyond the new horizon
+                    ob = pool.get(arg)
+                    if arg not in contained or not isinstance(ob, DynamicObstacle) or ob.prediction is None or \
+                            len(ob.prediction.trajectory.state_list) < 2:
+                        continue
+                    from commonroad.prediction.prediction import TrajectoryPrediction
+                    from commonroad.scenario.trajectory import Trajectory
+                    sl_ = ob.prediction.trajectory.state_list
+                    keep = copy.deepcopy(sl_[: max(1, len(sl_) // 2)])
+                    ctx.feature("op.shorten-prediction")
+                    ob.update_prediction(TrajectoryPrediction(Trajectory(keep[0].time_step, keep), ob.prediction.shape))
+                    assigned = {a for a in assigned if a[0] != arg}
+                    center_only.add(arg)
                 elif op in ("remove", "remove-list"):
                     keys = [arg] if op == "remove" else list(arg)
                     keys = [k for k in keys if k in contained]
@@ -335,7 +350,9 @@ def run(ctx):
                    [("add", 101), ("add", 102), ("assign-all", None), ("move", 102), ("assign-ids", 102), ("remove", 102)],
                    [("add", 102), ("assign-all", None), ("move", 102), ("assign-all", None), ("remove", 102), ("add", 102)],
                    [("add", 101), ("assign-all", None), ("move", 101), ("move", 101), ("assign-all", None),
-                    ("assign-center-only", None), ("assign-all", None)]):
+                    ("assign-center-only", None), ("assign-all", None)],
+                   [("add", 101), ("add", 102), ("assign-all", None), ("shorten-prediction", 101),
+                    ("shorten-prediction", 102), ("assign-all", None), ("remove", 101), ("remove", 102)]):
             ctx.fingerprint(["scripted", i, [[o, a] for o, a in sh]])
             ctx.feature("scripted-history")
             run_history(rng, lanelets, obs, sh, "scripted")
@@ -363,8 +380,10 @@ def run(ctx):
                 hist.append(("assign-times", tuple(sorted(rng.sample(range(0, 5), rng.randint(1, 3))))))
             elif c < 0.72:
                 hist.append(("assign-center-only", None))
-            elif c < 0.80:
+            elif c < 0.77:
                 hist.append(("move", rng.choice(ids)))
+            elif c < 0.80:
+                hist.append(("shorten-prediction", rng.choice(ids)))
             elif c < 0.9:
                 hist.append(("remove", rng.choice(ids)))
             else:
